@@ -143,6 +143,28 @@ pub fn run(ctx: &mut Ctx) {
                     f.extension_space = (0..ext_n).map(|_| gen::bytes(&mut ctx.rng, 33)).collect();
                     serde_rt(ctx, "dynafed::Params", &elements::dynafed::Params::Full(f));
                 }
+                // byte fields whose content is itself text (ASCII hex digits, printable ASCII, valid
+                // UTF-8): a reader must not reinterpret them
+                {
+                    let mut f = gen::full_params(&mut ctx.rng, false);
+                    let texty = |r: &mut gen::Rg| -> Vec<u8> {
+                        let n = 2 * r.gen_range(1..6usize);
+                        match r.gen_range(0..3) {
+                            0 => (0..n).map(|_| *gen::pick(r, b"0123456789abcdef")).collect(),
+                            1 => (0..n).map(|_| *gen::pick(r, b"0123456789ABCDEF")).collect(),
+                            _ => (0..n).map(|_| r.gen_range(0x20..0x7fu8)).collect(),
+                        }
+                    };
+                    f.fedpegscript = texty(&mut ctx.rng);
+                    f.extension_space = (0..ctx.rng.gen_range(1..3)).map(|_| texty(&mut ctx.rng)).collect();
+                    f.signblockscript = elements::Script::from(texty(&mut ctx.rng));
+                    f.fedpeg_program = elements::bitcoin::ScriptBuf::from_bytes(texty(&mut ctx.rng));
+                    ctx.shape(("params-text-like", f.extension_space.len()));
+                    serde_rt(ctx, "dynafed::Params", &elements::dynafed::Params::Full(f.clone()));
+                    let mut h2 = h.clone();
+                    h2.ext = elements::BlockExtData::Dynafed { current: elements::dynafed::Params::Full(f), proposed: elements::dynafed::Params::Null, signblock_witness: vec![texty(&mut ctx.rng)] };
+                    serde_rt(ctx, "BlockHeader", &h2);
+                }
             }
             3 => {
                 let b = gen::block(&mut ctx.rng, 3);
@@ -204,9 +226,16 @@ pub fn run(ctx: &mut Ctx) {
                 both!("LockTime", LockTime::from_consensus(n));
                 both!("Sequence", Sequence(n));
                 if n < 500_000_000 {
-                    both!("locktime::Height", elements::locktime::Height::from_consensus(n).unwrap());
+                    let h = elements::locktime::Height::from_consensus(n).unwrap();
+                    both!("locktime::Height", h);
+                    // the same lock time reached through the other constructors
+                    both!("LockTime", LockTime::from(h));
+                    both!("LockTime", LockTime::from_height(n).unwrap());
                 } else {
-                    both!("locktime::Time", elements::locktime::Time::from_consensus(n).unwrap());
+                    let t = elements::locktime::Time::from_consensus(n).unwrap();
+                    both!("locktime::Time", t);
+                    both!("LockTime", LockTime::from(t));
+                    both!("LockTime", LockTime::from_time(n).unwrap());
                 }
                 for t in super::c03::ECDSA_TYPES {
                     both!("EcdsaSighashType", t);
